@@ -763,7 +763,6 @@ func paramSources(v ssa.Value, root *ssa.Function, depth int) []valueIn {
 	return out
 }
 
-
 // nameOf is the inventory name of a module entity (a consistently renamed
 // function, method or field keeps the name the rule tables know it by).
 func nameOf(o interface{ Name() string }) string {
@@ -831,15 +830,14 @@ func isDebugLog(cc *ssa.CallCommon) bool {
 // (*Writer).WriteFrame inside a loop. On the reviewed tree that is rawWriteLocked; the rules that are about
 // "the frame loop" find it by this content, so that they follow it through renames, signature changes and inlining.
 func frameLoopFns(c *an.Ctx) []*ssa.Function {
-	a := A(c)
-	wf := a.obj("drpcwire", "(*Writer).WriteFrame")
+	wapi := writerAPI(c)
 	var out []*ssa.Function
 	for _, fn := range must(c.P.SourceFuncs("drpcstream")) {
 		found := false
 		for _, l := range an.Loops(fn) {
 			for b := range l.Blocks {
 				for _, in := range b.Instrs {
-					if ci, ok := in.(ssa.CallInstruction); ok && an.IsCallTo(ci.Common(), wf) {
+					if ci, ok := in.(ssa.CallInstruction); ok && wapi.emits(ci.Common()) {
 						found = true
 					}
 				}
@@ -887,4 +885,90 @@ func splitConsumingLoop(c *an.Ctx, l *an.Loop) bool {
 		}
 	}
 	return false
+}
+
+// concatParts flattens a byte-slice (or string) value built by appends onto an empty base into its parts, in
+// order: append(x, y...) -> parts(x) ++ [y]; arr[:] of a local array -> the array; nil / empty -> no part;
+// BigEndian.AppendUintN(x, v) -> parts(x) ++ [that call].
+func concatParts(v ssa.Value, depth int) ([]ssa.Value, bool) {
+	if depth > 8 || v == nil {
+		return nil, false
+	}
+	v = an.Resolve(v)
+	switch x := v.(type) {
+	case *ssa.Const:
+		if x.Value == nil {
+			return nil, true
+		}
+	case *ssa.MakeSlice:
+		if k, isK := an.ConstInt(x.Len); isK && k == 0 {
+			return nil, true
+		}
+		// make([]byte, len(p), ...) filled by copy(_, p): a re-allocated copy of the prefix p
+		if lc, isCall := x.Len.(*ssa.Call); isCall {
+			if b, isB := lc.Common().Value.(*ssa.Builtin); isB && b.Name() == "len" {
+				src := lc.Common().Args[0]
+				for _, r := range *x.Referrers() {
+					cp, isCp := r.(*ssa.Call)
+					if !isCp {
+						continue
+					}
+					if cb, isCB := cp.Common().Value.(*ssa.Builtin); isCB && cb.Name() == "copy" && cp.Common().Args[0] == ssa.Value(x) && sameValue(cp.Common().Args[1], src) {
+						return concatParts(src, depth+1)
+					}
+				}
+			}
+		}
+	case *ssa.Phi:
+		// alternatives that are the same concatenation (a buffer and its re-allocated copy)
+		var first []ssa.Value
+		for i, e := range x.Edges {
+			ps, ok := concatParts(e, depth+1)
+			if !ok {
+				return []ssa.Value{v}, true
+			}
+			if i == 0 {
+				first = ps
+				continue
+			}
+			if len(ps) != len(first) {
+				return []ssa.Value{v}, true
+			}
+			for j := range ps {
+				if ps[j] != first[j] {
+					return []ssa.Value{v}, true
+				}
+			}
+		}
+		return first, true
+	case *ssa.Slice:
+		if hi, isK := an.ConstInt(x.High); x.High != nil && isK && hi == 0 {
+			return nil, true
+		}
+		if al, isAl := x.X.(*ssa.Alloc); isAl && x.Low == nil && x.High == nil {
+			if _, isArr := deref(al.Type()).Underlying().(*types.Array); isArr {
+				return []ssa.Value{al}, true
+			}
+		}
+	case *ssa.Call:
+		if b, isB := x.Common().Value.(*ssa.Builtin); isB && b.Name() == "append" && len(x.Common().Args) == 2 {
+			base, ok := concatParts(x.Common().Args[0], depth+1)
+			if !ok {
+				return nil, false
+			}
+			// the appended operand may itself be a concatenation
+			if more, ok2 := concatParts(x.Common().Args[1], depth+1); ok2 && len(more) >= 1 {
+				return append(base, more...), true
+			}
+			return append(base, x.Common().Args[1]), true
+		}
+		if obj := an.CalleeObj(x.Common()); obj != nil && strings.HasPrefix(obj.Name(), "AppendUint") && strings.Contains(obj.FullName(), "Endian") && len(x.Common().Args) == 3 {
+			base, ok := concatParts(x.Common().Args[1], depth+1)
+			if !ok {
+				return nil, false
+			}
+			return append(base, v), true
+		}
+	}
+	return []ssa.Value{v}, true
 }
